@@ -176,7 +176,7 @@ def main():
         "not_applicable": [
             {"property_id": p["id"], "reason": NOT_YET} for p in PROPS if p["id"] not in CHECKS
         ],
-        "notes": "All checks run under /venv/bin/python with PYTHONPATH=/repo/python:/verif; see DESIGN.md (section 7 = as built). /repo carries 32 unguarded fix: commits (each listed as a fixed: line in known_findings.json, none suppresses anything); 4 genuine defects are recorded as known findings there with witnesses replayed at the start of every run of the checks that list them.",
+        "notes": "All checks run under /venv/bin/python with PYTHONPATH=/repo/python:/verif; see DESIGN.md (section 7 = as built). The program explorers stop with a library-call-did-not-terminate violation (exit 1) if no exploration task finishes within VERIF_STALL_S (default 240) seconds. /repo carries 32 unguarded fix: commits (each listed as a fixed: line in known_findings.json, none suppresses anything); 4 genuine defects are recorded as known findings there with witnesses replayed at the start of every run of the checks that list them.",
     }
     with open(os.path.join(ROOT, "MANIFEST.json"), "w") as f:
         json.dump(manifest, f, indent=1)
